@@ -703,6 +703,7 @@ func Main(args []string) int {
 				}
 				sort.Strings(reported)
 				pairNodes[k][c.style] = reported
+				pairNodes[k]["focus"] = []string{c.mut.Focus.String()}
 			}
 			if len(r.SamplesLen()) < 8 && c.mut != nil {
 				w["positions"] = l.Pos
@@ -719,7 +720,8 @@ func Main(args []string) int {
 			}
 			if sameNodes(j, y) {
 				lsame++
-			} else if lessPrecise(j, y) || lessPrecise(y, j) {
+			} else if f := m["focus"]; len(f) == 1 && ((len(j) == 1 && j[0] == f[0] && lessPrecise(j, y)) || (len(y) == 1 && y[0] == f[0] && lessPrecise(y, j))) {
+				// one spelling reports exactly the faulty node, the other only something above it
 				// one spelling names a node, the other only a node above it: not a choice between several faults (those
 				// are siblings or unrelated), the position got less precise in one spelling
 				ldiff++
